@@ -463,3 +463,58 @@ TRUSTED_BASE = [
     "keccak256 is concrete in Gallina, validated by vectors and by the correspondence check",
     "not covered: unforgeability / collision resistance, memory safety of dependencies, timing, allocation failure",
 ]
+
+
+# ---------------------------------------------------------------------------------------------------
+# Source surface: a cheap second tie between /repo's current source and what the harness and the model
+# cover.  It decides nothing (verdicts come from theorems + correspondence); it goes into the evidence and
+# prints a NOTE when the crate grew public API the harness never calls, or when a constant of the source no
+# longer equals the constant the model was written with.
+_MODEL_CONSTS = {"MAX_ENR_SIZE": "300", "ID_ENR_KEY": "id", "ENR_VERSION": "v4", "IP_ENR_KEY": "ip", "IP6_ENR_KEY": "ip6",
+                 "TCP_ENR_KEY": "tcp", "TCP6_ENR_KEY": "tcp6", "UDP_ENR_KEY": "udp", "UDP6_ENR_KEY": "udp6",
+                 "ENR_KEY(k256/libsecp)": "secp256k1", "ENR_KEY(ed25519)": "ed25519"}
+# public functions that cannot be exercised deterministically or are trait plumbing (reason recorded)
+_API_EXEMPT = {"random": "NodeId::random: random output", "generate_secp256k1": "random key", "generate_ed25519": "random key",
+               "fmt": "trait method, reached through format!", "hash": "trait method", "eq": "trait method",
+               "serialize": "trait method, reached through serde_json", "deserialize": "trait method", "from_str": "trait method, reached through parse()",
+               "encode": "trait method", "decode": "trait method", "length": "trait method", "from": "trait method", "try_from": "trait method",
+               "visit_str": "serde visitor", "expecting": "serde visitor", "clone": "derive"}
+
+
+def source_surface():
+    import re
+    src = {}
+    for root, _, files in os.walk("/repo/src"):
+        for fn in files:
+            if fn.endswith(".rs"):
+                src[os.path.join(root, fn)] = open(os.path.join(root, fn), errors="replace").read()
+    consts, differ = {}, []
+    for path, text in src.items():
+        body = text.split("#[cfg(test)]\nmod tests")[0]
+        for m in re.finditer(r"const\s+([A-Z0-9_]+)\s*:\s*[^=]+=\s*(?:b?\"([^\"]*)\"|(\d+))\s*;", body):
+            name = m.group(1)
+            val = m.group(2) if m.group(2) is not None else m.group(3)
+            if name == "ENR_KEY":
+                name = "ENR_KEY(ed25519)" if "ed25519" in path else "ENR_KEY(k256/libsecp)"
+            consts.setdefault(name, set()).add(val)
+    for name, want in _MODEL_CONSTS.items():
+        got = consts.get(name)
+        if got is None:
+            differ.append("%s: not found in the source (model uses %r)" % (name, want))
+        elif got != {want}:
+            differ.append("%s: source %s, model %r" % (name, sorted(got), want))
+    harness = "".join(open(os.path.join(VERIF, "harness", "src", f), errors="replace").read()
+                      for f in os.listdir(os.path.join(VERIF, "harness", "src")))
+    pubs, missing = [], []
+    for path, text in sorted(src.items()):
+        body = text.split("#[cfg(test)]\nmod tests")[0]
+        for m in re.finditer(r"^\s*pub\s+(?:const\s+)?fn\s+([a-z_0-9]+)", body, re.M):
+            f = m.group(1)
+            pubs.append(f)
+            if f in _API_EXEMPT:
+                continue
+            if not re.search(r"[.:]%s\s*(?:::<[^>]*>)?\s*\(" % re.escape(f), harness):
+                missing.append("%s (%s)" % (f, os.path.relpath(path, "/repo")))
+    return {"source_constants_checked": len(_MODEL_CONSTS), "source_constants_differ_from_model": differ,
+            "pub_fns_in_source": len(pubs), "pub_fns_not_called_by_harness": sorted(set(missing)),
+            "exempt": _API_EXEMPT}
